@@ -1,5 +1,5 @@
 import HdModel.Props.C05
-import HdModel.Lemmas.PoolLinear
+import HdModel.Lemmas.PoolReady
 /-! # C02 — a non-multiplexed connection serves one request at a time
 
 Step-level theorems about the pool model, valid in **every** state: a non-shareable connection is
@@ -141,5 +141,32 @@ example :
     let s := (run (init {}) ops).1
     s.held 0 = none ∧ s.held 1 = some ⟨0, 1, true⟩ ∧ (run (init {}) (ops.take 9)).1.held 1 = none := by
   decide
+
+/-- **C02 (ready again before reuse).** In every reachable state a non-multiplexed connection that
+    the pool could hand out – idle, in a waiter's channel, or popped into a checkout – is not busy:
+    it has reported itself ready after its previous use. Conversely a connection that is still busy
+    (response not consumed, or taken over by an upgrade and never ready again) is nowhere the pool
+    hands out from. -/
+theorem C02_available_means_ready (cfg : Config) (ops : List Op) (c : ConnId)
+    (hn : canShare (run (init cfg) ops).1 c = false) (hp : Pooledish (run (init cfg) ops).1 c) :
+    NotBusy (run (init cfg) ops).1 c :=
+  run_ready ops (init cfg) (ready_init cfg) (lininv_init cfg) (originInv_init cfg) c hn hp
+
+theorem C02_busy_not_available (cfg : Config) (ops : List Op) (c : ConnId) (k : Conn)
+    (hn : canShare (run (init cfg) ops).1 c = false) (hk : (run (init cfg) ops).1.conns c = some k) (hb : k.busy = true) :
+    ¬ Pooledish (run (init cfg) ops).1 c := by
+  intro hp
+  have := C02_available_means_ready cfg ops c hn hp k hk
+  rw [hb] at this; cases this
+
+/-- **C02 (hand-out).** In every reachable state, the connection a poll hands to a request – taken
+    from its channel, from the idle connection it was given, or freshly established – is not busy. -/
+theorem C02_handout_ready (cfg : Config) (ops : List Op) (r : ReqId) (chk : Checkout) (p : Pooled)
+    (hco : (run (init cfg) ops).1.co r = some chk)
+    (hg : (pollCheckout (run (init cfg) ops).1 r chk).2.2 = .got p)
+    (hn : canShare (pollCheckout (run (init cfg) ops).1 r chk).1 p.conn = false) :
+    NotBusy (pollCheckout (run (init cfg) ops).1 r chk).1 p.conn :=
+  (pollCheckout_ready (run_ready ops (init cfg) (ready_init cfg) (lininv_init cfg) (originInv_init cfg))
+    (run_originInv ops (init cfg) (originInv_init cfg)) r chk hco).2 p hg hn
 
 end Hd.Pool
